@@ -169,8 +169,10 @@ CHECKS = {
         "are checked to be admissible, inside Coq, for every profile with total <= 16 (quick) / 60, for profiles at and next to "
         "every n.001 % threshold, and for random totals up to 10^9.",
    note="Trusted: Coq kernel; translator (rational mode for the expression inside ceil, the ceil results as parameters of the "
-        "adjustment); that binary64 evaluation stays within 10^-12 of the exact value is checked per case by the admissibility "
-        "test (a Flocq proof of that bound is attempted separately, see DESIGN.md); rich rendering of cells.",
+        "adjustment); Flocq's rounding model and that CPython's int/int, *, -, math.ceil and the literal 0.001 are the correctly "
+        "rounded binary64 operations; C19_binary64_error / C19_binary64_admissible (binary64 evaluation stays within 10^-12 of the "
+        "exact value, hence the computed outcome is admissible, for totals < 2^53) depend on the standard library's real-number "
+        "axioms (sig_not_dec, sig_forall_dec, functional_extensionality_dep, classic); rich rendering of cells.",
    technique="Rocq proof (nia/lia over exact ceilings and over every tolerance-admissible outcome) on source-translated definitions + admissibility of the implementation's outputs decided in Coq",
    ref="DESIGN.md sections 5 and 9, C19"),
 
